@@ -41,7 +41,7 @@ func (ig *ingest) gates(e *Effect) {
 		ev.Verdict("G4.commits", props("C01", "C03"), "the commits handed to the commit callback are GetCommitMessages(h, v, hash) of one key", "", true, "")
 		ppm := Ext(0, Call("interfaces.GetPreprepareMessage", k.ST, h, v))
 		okPpm := Truth(Ext(1, Call("interfaces.GetPreprepareMessage", k.ST, h, v)))
-		ev.Require("G1", props("C01", "C04", "C12"), "commit only with a stored proposal for (h,v) that carries a block and whose header hash equals the committed hash", "",
+		ev.Require("G1", props("C01", "C03", "C04", "C12"), "commit only with a stored proposal for (h,v) that carries a block and whose header hash equals the committed hash", "",
 			okPpm, Ne(Field(ppm, "block"), tNil), Eq(hash(hdr(ppm)), x))
 		ev.Require("G2", props("C01", "C03"), "commit only under a quorum of stored COMMIT senders for exactly (h, v, hash)", "",
 			k.Quorum(Call("interfaces.GetCommitSendersIds", k.ST, h, v, x)), Truth(Ext(1, Call("interfaces.GetCommitMessages", k.ST, h, v, x))))
